@@ -9,20 +9,23 @@
 EXTENDS GroupLine, Json, IOUtils
 
 LeavesOf(lvl)   == UNION {FieldLeaves(lvl.named[k]) : k \in DOMAIN lvl.named}
-PosItemsOf(lvl) == (IF lvl.tail.kind = "pos" THEN RangeOf(lvl.tail.items) ELSE {})
+PosItemsOf(lvl) == (IF lvl.tail.kind = "pos" THEN RangeOf(lvl.tail.items)
+                    ELSE IF lvl.tail.kind = "cmd" THEN RangeOf(lvl.tail.else_pos) ELSE {})
                    \cup UNION {IF lvl.named[k].kind = "adj" THEN RangeOf(PosMembers(lvl.named[k])) ELSE {} : k \in DOMAIN lvl.named}
 Hidden(x)       == x.hidden
 FirstNames(it)  == (IF it.shorts # <<>> THEN {it.shorts[1]} ELSE {}) \cup (IF it.longs # <<>> THEN {it.longs[1]} ELSE {})
 AliasNames(it)  == NamesOf(it) \ FirstNames(it)
 \* what the user can pass at this level and must therefore be listed
 MustList(lvl) ==
-  UNION {FirstNames(it) \cup {it.help} \cup (IF it.kind = "arg" THEN {it.metavar} ELSE {}) : it \in {x \in LeavesOf(lvl) : ~Hidden(x)}}
+  UNION {FirstNames(it) \cup {it.help} \cup (IF it.kind = "arg" THEN {it.metavar} ELSE {})
+         \cup (IF it.env # "" THEN {it.env} ELSE {})          \* the variable an item falls back to is shown with it
+         : it \in {x \in LeavesOf(lvl) : ~Hidden(x)}}
   \cup UNION {{p.metavar, p.help} : p \in PosItemsOf(lvl)}
   \cup UNION {{c.names[1], c.help} : c \in LevelCmds(lvl)}
   \cup {"-h", "--help"} \cup (IF lvl.version THEN {"-V", "--version"} ELSE {})
 \* what must appear nowhere in the text
 MustNotMention(lvl) ==
-  UNION {NamesOf(it) \cup {it.help} : it \in {x \in LeavesOf(lvl) : Hidden(x)}}
+  UNION {NamesOf(it) \cup {it.help} \cup (IF it.env # "" THEN {it.env} ELSE {}) : it \in {x \in LeavesOf(lvl) : Hidden(x)}}
   \cup UNION {AliasNames(it) : it \in {x \in LeavesOf(lvl) : ~Hidden(x)}}
   \cup UNION {RangeOf(Tail(c.names)) : c \in LevelCmds(lvl)}
 \* name-like tokens allowed in the item lists
